@@ -1,0 +1,13 @@
+//go:build verif
+
+package cache
+
+// VerifHook, when set by a verification driver, receives one event per cache
+// operation. It is called with c.mu held, after the state change.
+var VerifHook func(name string, c *LRUCache, args ...interface{})
+
+func verifEvent(name string, c *LRUCache, args ...interface{}) {
+	if h := VerifHook; h != nil {
+		h(name, c, args...)
+	}
+}
